@@ -70,6 +70,8 @@ FUNCS = [
     "max_coord_all",
     "sum_int2d_all",
     "min_int2d_all",
+    # a function whose second positional parameter is NOT the axis (np.linalg.norm(x, ord, axis))
+    "norm_axis0",
 ]
 SPREADS = ["int", "float2d", "str", "bool"]
 INDEX_FORMS = ["int64", "list", "int32", "uint16"]
@@ -290,6 +292,9 @@ def make_function(name, arr, atoms, rng):
         return rng.integers(-9, 9, (n, 3)), np.sum, None
     if name == "min_int2d_all":
         return rng.integers(-99, 99, (n, 2)), np.min, None
+    if name == "norm_axis0":
+        coord = arr.coord if arr.coord.ndim == 2 else arr.coord[0]
+        return coord.astype(np.float64), np.linalg.norm, 0
     raise ValueError(name)
 
 
